@@ -247,7 +247,7 @@ func vocabulary() []string {
 var optValues = []string{"", "0", "1", "10", "-1", "50%", "100%", "101%", "~10", "~50%", "abc", "..", "1,2", "2..", "-1..", "0", "a,b", "ctrl-a", "ctrl-a:up", "ctrl-a:execute(ls)+down",
 	"right:50%:wrap", "up,30%,border-left", "hidden", "rounded", "none", "fg:1,bg:-1,hl:#ff0000", "dark", "16", "bw", "16,fg:1,bg:4", "dark,fg:2,hl:3", "light,bg:5,pointer:6:bold", "bw,fg:7", "file,dir,follow,hidden", "length,index", "end,chunk", "default", "path", "history",
 	"v1", "v2", "reverse", "reverse-list", "inline", "inline-right", "hidden", "\t", "\\t", "[,;]+", "(", "é", "漢字", "> ", "  ", "\x1b[31m", strings.Repeat("x", 300), "1:2:3", "99999999999999999999", "3.5",
-	"top", "center,50%", "localhost:0", "0.0.0.0:1234", "/nonexistent/dir", ".", "full", "minimal", "a:b:c", "::", ",", "+", "-", "--", "--x", "{}", "{1} {2}", "echo {}", "load:pos(3)", "result:transform-query:echo x",
+	"top", "center,50%", "border-native", "center,border-native", "border-native,bottom,40%", "localhost:0", "0.0.0.0:1234", "/nonexistent/dir", ".", "full", "minimal", "a:b:c", "::", ",", "+", "-", "--", "--x", "{}", "{1} {2}", "echo {}", "load:pos(3)", "result:transform-query:echo x",
 	"change:reload:cat /dev/null", "⣿", "🙂", "\xff\xfe"}
 
 func nonFuncFieldsEqual(a0, b0 *Options) string {
@@ -460,7 +460,7 @@ var overridable = []struct {
 	{"--height", []string{"10", "50%", "~20", "100%"}}, {"--layout", []string{"default", "reverse", "reverse-list"}}, {"--prompt", []string{"> ", "$ ", ""}},
 	{"--pointer", []string{">", "*", ""}}, {"--marker", []string{">", "+"}}, {"--delimiter", []string{",", ":", "[,;]+"}}, {"--nth", []string{"1", "2..", "1,3"}},
 	{"--tiebreak", []string{"length", "end,index", "chunk"}}, {"--scheme", []string{"default", "path", "history"}}, {"--algo", []string{"v1", "v2"}},
-	{"--multi", []string{"1", "3", "10"}}, {"--tmux", []string{"center", "bottom,40%", "left,30%"}}, {"--info", []string{"default", "inline", "hidden", "inline-right"}}, {"--border", []string{"rounded", "sharp", "none", "double"}},
+	{"--multi", []string{"1", "3", "10"}}, {"--tmux", []string{"center", "bottom,40%", "left,30%", "border-native"}}, {"--info", []string{"default", "inline", "hidden", "inline-right"}}, {"--border", []string{"rounded", "sharp", "none", "double"}},
 	{"--tabstop", []string{"2", "4", "8"}}, {"--query", []string{"a", "b", ""}}, {"--filter", []string{"a", "b"}}, {"--header", []string{"h1", "h2"}},
 	{"--header-lines", []string{"1", "2", "0"}}, {"--tail", []string{"5", "10"}}, {"--scroll-off", []string{"0", "2", "5"}}, {"--hscroll-off", []string{"3", "10"}},
 	{"--jump-labels", []string{"abc", "xyz12"}}, {"--ellipsis", []string{"..", "~"}}, {"--preview", []string{"echo {}", "cat {}", ""}}, {"--margin", []string{"1", "5%", "1,2"}},
